@@ -1799,3 +1799,80 @@ Example wf_ops_example :
              OIncr 7 [5]; ODeliv 7 [2; 0] [6]; OSetTs 8 12 [7]; OLoad 0; OGet 7; ORemove 7; OGet 7]) =
   [RId 7; RId 8; RAtt 1; RUnit; RUnit; RLoad [(12, 8); (10, 7)]; RGot (mkEnv [1] [[3]] [5]) 1; RUnit; RMissing].
 Proof. split; vm_compute; reflexivity. Qed.
+
+(* ============================ load and get are read-only on every substrate *)
+Definition is_read (o : op) : bool := match o with OLoad _ | OGet _ => true | _ => false end.
+
+Lemma redis_read_ro o : is_read o = true -> ro_prog rstate rcmd rans rexec (redis_prog o).
+Proof.
+  destruct o; cbn [is_read]; try discriminate; intros _; cbn [redis_prog].
+  - apply rop_do; [reflexivity|]. intros a. destruct a; try apply rop_ret.
+    generalize (@nil (N * N)) as acc. induction l as [|k ks IH]; intros acc; cbn [r_load_loop]; [apply rop_ret|].
+    destruct k as [id|]; [|apply IH].
+    apply rop_do; [reflexivity|]. intros a. destruct a as [| | |[t|]| | | | |]; try apply rop_ret; apply IH.
+  - apply rop_do; [reflexivity|]. intros a. destruct a as [| | | | | |[e|] att dl| |]; try apply rop_ret.
+    destruct dl as [l|]; [|apply rop_ret]. destruct (accum_get l (e_rcpts e)); apply rop_ret.
+Qed.
+
+Lemma cloud_read_ro mq o : is_read o = true -> ro_prog cstate ccmd cans cexec (cloud_prog mq o).
+Proof.
+  destruct o; cbn [is_read]; try discriminate; intros _; cbn [cloud_prog].
+  - apply rop_do; [reflexivity|]. intros a. destruct a; apply rop_ret.
+  - apply rop_do; [reflexivity|]. intros a. destruct a as [| | |[[[[e t] a'] d]|]| |]; try apply rop_ret.
+    destruct (accum_get _ _); apply rop_ret.
+Qed.
+
+Lemma readonly_ro p : readonly p -> ro_prog fs dcmd dans dexec p.
+Proof. induction 1; [apply rop_ret|apply rop_do; [reflexivity|assumption]..]. Qed.
+
+Section DiskReaders.
+  Variable enc_env : envelope -> bytes.
+  Variable dec_env : bytes -> option envelope.
+  Variable enc_meta : meta -> bytes.
+  Variable dec_meta : bytes -> option meta.
+  Variable chunk : nat.
+  Notation dprog_of := (disk_prog enc_env dec_env enc_meta dec_meta chunk).
+
+  Lemma disk_read_ro o : is_read o = true -> ro_prog fs dcmd dans dexec (dprog_of o).
+  Proof.
+    destruct o; cbn [is_read]; try discriminate; intros _; apply readonly_ro.
+    - apply (readonly_load enc_env dec_env enc_meta dec_meta chunk).
+    - apply readonly_get.
+  Qed.
+
+  Theorem readers_invisible_disk sch s (owners : list disk_thread) (reader_ops : list (list op)) :
+    Forall (Forall (fun o => is_read o = true)) reader_ops ->
+    let own_sch := filter (fun i => Nat.ltb i (length owners)) sch in
+    fst (sched dexec (th_next dprog_of) sch s (owners ++ map th_start reader_ops)) =
+      fst (sched dexec (th_next dprog_of) own_sch s owners) /\
+    firstn (length owners) (snd (sched dexec (th_next dprog_of) sch s (owners ++ map th_start reader_ops))) =
+      snd (sched dexec (th_next dprog_of) own_sch s owners).
+  Proof.
+    intros H. apply readers_invisible. eapply Forall_impl; [|exact H]. intros ops Ho.
+    eapply Forall_impl; [|exact Ho]. intros o. apply disk_read_ro.
+  Qed.
+End DiskReaders.
+
+Theorem readers_invisible_redis sch s (owners : list (thread rcmd rans)) (reader_ops : list (list op)) :
+  Forall (Forall (fun o => is_read o = true)) reader_ops ->
+  let own_sch := filter (fun i => Nat.ltb i (length owners)) sch in
+  fst (sched rexec (th_next redis_prog) sch s (owners ++ map th_start reader_ops)) =
+    fst (sched rexec (th_next redis_prog) own_sch s owners) /\
+  firstn (length owners) (snd (sched rexec (th_next redis_prog) sch s (owners ++ map th_start reader_ops))) =
+    snd (sched rexec (th_next redis_prog) own_sch s owners).
+Proof.
+  intros H. apply readers_invisible. eapply Forall_impl; [|exact H]. intros ops Ho.
+  eapply Forall_impl; [|exact Ho]. intros o. apply redis_read_ro.
+Qed.
+
+Theorem readers_invisible_cloud mq sch s (owners : list (thread ccmd cans)) (reader_ops : list (list op)) :
+  Forall (Forall (fun o => is_read o = true)) reader_ops ->
+  let own_sch := filter (fun i => Nat.ltb i (length owners)) sch in
+  fst (sched cexec (th_next (cloud_prog mq)) sch s (owners ++ map th_start reader_ops)) =
+    fst (sched cexec (th_next (cloud_prog mq)) own_sch s owners) /\
+  firstn (length owners) (snd (sched cexec (th_next (cloud_prog mq)) sch s (owners ++ map th_start reader_ops))) =
+    snd (sched cexec (th_next (cloud_prog mq)) own_sch s owners).
+Proof.
+  intros H. apply readers_invisible. eapply Forall_impl; [|exact H]. intros ops Ho.
+  eapply Forall_impl; [|exact Ho]. intros o. apply cloud_read_ro.
+Qed.
